@@ -99,11 +99,17 @@ IsApproxItems(ev) ==
   LET g == ev.g  a == DV(ev.a)  d == DV(ev.d)  eps == D(ev.eps)
       small == FLe(LinCoeffMax(g, a), FInt(2))                \* coordinates O(1): the planned tangent is accurate
       dmax == VMaxAbs(d)
+      L0 == LinCoeffMax(g, a)
   IN << Item("reflexive", Must(TRUE, ev.xx)), Item("reflexive_eq", Must(TRUE, ev.eqxx)),
         Item("twin", IF ev.xt = 1 /\ ev.tx = 1 /\ ev.eqxt = 1 THEN 0 ELSE BADR),
         Item("symmetric", IF ev.xy = ev.yx THEN 0 ELSE BADR) >>
      \o (IF small /\ FLe(FMulInt(dmax, 8), eps) THEN << Item("close_accepted", Must(TRUE, ev.xy)) >> ELSE << >>)
      \o (IF small /\ FLe(FMulInt(eps, 8), dmax) /\ FLe(dmax, FPow2(-1)) THEN << Item("far_rejected", Must(FALSE, ev.xy)) >> ELSE << >>)
+     \* large coordinates: the planned tangent is still (much) larger than the rounding of the pair's construction
+     \* (2^12 u L, with L^2 for SGal3 whose coupling terms multiply two coordinates), so a far pair must still be rejected
+     \o (IF ~small /\ FLe(FMulInt(eps, 8), dmax) /\ FLe(dmax, FPow2(-1))
+            /\ FLe(FMul(FMulInt(UOf(ev), 4096), IF g.k = "SGal3" THEN FMul(L0, L0) ELSE L0), dmax)
+         THEN << Item("far_rejected_large", Must(FALSE, ev.xy)) >> ELSE << >>)
 TIsApproxItems(ev) ==
   LET a == DV(ev.t)  b == DV(ev.s)  sm == DV(ev.small)  eps == D(ev.eps)
       na == FSqrt(VDot(a, a))
